@@ -50,7 +50,7 @@ def build():
     invariant render_all($lst@.take(it.index@), data) == Some(strs($v@)), hook.args == Some(*$lst), *w == *old(w),
 """, 2: """
     invariant proc_of(*hook, data) matches Some(p) && w.spawned == old(w).spawned.push(p),
-"""}, at=[("before", "$lst.iter()", 1, "it:"),
+"""}, at=[("loop_iter", None, 1, "it:"),
           ("before_stmt", "for $fmt in", 1, "proof { assert($lst@.take(0) =~= Seq::<String>::empty()); assert(strs($v@) =~= Seq::<Seq<char>>::empty()); }"),
           ("after_stmt", "$v.push($s)", 1, """
                 proof {
